@@ -9,7 +9,7 @@ import (
 	"verifharness/internal/val"
 )
 
-var c08Floor = []string{"depth.2", "depth.3", "inner.empty", "outer.empty", "mid.empty", "ragged", "where", "item.alias", "item.nonidempotent", "item.star", "item.async", "item.userfn", "mix"}
+var c08Floor = []string{"depth.2", "depth.3", "inner.empty", "outer.empty", "mid.empty", "ragged", "where", "item.alias", "item.nonidempotent", "item.star", "item.async", "item.userfn", "mix", "mix.keep", "reexec.after-fault"}
 
 func init() {
 	fw.Register(&fw.Prop{
@@ -145,7 +145,7 @@ func c08Run(c *fw.Case) {
 		if c.Chance(0.3) {
 			items = append(items, "n2 AS n1x", "b1")
 		}
-		if force == "item.userfn" || c.Chance(0.15) {
+		if force == "item.userfn" || force == "reexec.after-fault" || c.Chance(0.15) {
 			items = append(items, "VFAIL(n2) AS u")
 			feats = append(feats, "item.userfn")
 		}
@@ -169,6 +169,8 @@ func c08Run(c *fw.Case) {
 		return
 	}
 	var concat []any
+	concatBy := map[int][]any{}
+	curTop := 0
 	nonEmptyInner, rejected := 0, false
 	var check func(src []any, got any, d int, path string) bool
 	check = func(src []any, got any, d int, path string) bool {
@@ -191,6 +193,7 @@ func c08Run(c *fw.Case) {
 				rejected = true
 			}
 			concat = append(concat, so.Rows...)
+			concatBy[curTop] = append(concatBy[curTop], so.Rows...)
 			if len(ga) == 0 && len(so.Rows) == 0 {
 				return true
 			}
@@ -212,6 +215,9 @@ func c08Run(c *fw.Case) {
 			return false
 		}
 		for i := range src {
+			if d == depth {
+				curTop = i
+			}
 			if !check(src[i].([]any), ga[i], d-1, fmt.Sprintf("%s[%d]", path, i)) {
 				return false
 			}
@@ -241,6 +247,54 @@ func c08Run(c *fw.Case) {
 		}
 		if !(len(m.Rows) == 0 && len(concat) == 0) && !val.SameSeq(m.Rows, concat) {
 			c.Violate("mix-differs", fmt.Sprintf("mix=> returned %s, the concatenation of the inner results is %s", short(val.Canon(m.Rows), 250), short(val.Canon(concat), 250)), det2)
+			return
+		}
+	}
+	// a Query object whose first execution failed part-way through some inner
+	// array must, executed again, still apply the query inside every inner array
+	// (only synchronous calls: a failing ASYNC call is outside what the given properties cover)
+	if containsStr(feats, "item.userfn") && !containsStr(feats, "item.async") && (force == "item.userfn" || force == "reexec.after-fault" || c.Chance(0.5)) {
+		armFault(0, faultNone)
+		if q, nerr := newSafe(val.CopyMap(doc), sql); q != nil && nerr.Err == nil {
+			_ = execBuilt(q)
+			n := faultCount()
+			if n >= 1 {
+				q2, _ := newSafe(val.CopyMap(doc), sql)
+				armFault(1+c.Intn(n), faultError)
+				failed := execBuilt(q2)
+				armFault(0, faultNone)
+				again := execBuilt(q2)
+				waitBackground()
+				evals += 2
+				feats = append(feats, "reexec.after-fault")
+				if failed.Err != nil && !(again.OK() && sameSelValue(again.Rows, o.Rows)) {
+					c.Violate("reexec-differs", fmt.Sprintf("after an execution that failed inside an inner array, executing the same Query again returned %s instead of the nested result %s", short(fmt.Sprint(again.Describe()), 250), short(val.Canon(o.Rows), 250)),
+						map[string]any{"sql": sql, "doc": doc, "first_failure": failed.Describe(), "second": again.Describe()})
+					return
+				}
+			}
+		}
+	}
+	// a top-level function combined with a keep=> step in the same path:
+	// mix=> over the first K inner arrays
+	if force == "mix.keep" || c.Chance(0.25) {
+		K := c.Intn(len(mm) + 1)
+		ksql := fmt.Sprintf("SELECT %s FROM `mix=>mm[keep=>(0:%d)]`%s", sel, K, where)
+		k := Run(val.CopyMap(doc), ksql)
+		waitBackground()
+		evals++
+		feats = append(feats, "mix.keep")
+		var wantK []any
+		for i := 0; i < K; i++ {
+			wantK = append(wantK, concatBy[i]...)
+		}
+		detK := map[string]any{"sql": ksql, "doc": doc, "observed": k.Describe(), "expected": val.Show(wantK)}
+		if !k.OK() {
+			c.Violate("error", fmt.Sprintf("mix=> over a keep=> path failed: %v", k.Describe()), detK)
+			return
+		}
+		if !(len(k.Rows) == 0 && len(wantK) == 0) && !val.SameSeq(k.Rows, wantK) {
+			c.Violate("mix-differs", fmt.Sprintf("`%s` returned %s, the concatenation of the first %d inner results is %s", ksql, short(val.Canon(k.Rows), 250), K, short(val.Canon(wantK), 250)), detK)
 			return
 		}
 	}
